@@ -49,10 +49,11 @@ theorem gen_constants :
 theorem gen_writer_sets : zygoWriterSets = writerSets := by decide +kernel
 
 /-- the reader takes `(rows, cols)` from `(cn_height, cn_width)`, the scaling from the four header fields the
-writer sets, and the header length from `header_size`; invalid samples are those `>=` the Zygo sentinel / `==` NDA -/
+writer sets, and the header length from `header_size`; invalid samples are those `>=` the Zygo sentinel / `==` NDA;
+the Code V reader guards against a last number that runs into the end of the file (warn + invalidate, before the mask) -/
 theorem gen_reader_keys :
     zygoReadShapeKeys = ("cn_height", "cn_width") ∧ zygoHeaderLenKey = "header_size" ∧
-    zygoReaderInvalidTest = ">=" ∧ cvReaderMaskTest = "==" ∧
+    zygoReaderInvalidTest = .ge ∧ cvReaderMaskTest = .eq ∧ cvReaderTrailingCheck = true ∧
     zygoReadScaleKeys = [("W", "wavelength"), ("S", "scale_factor"), ("O", "obliquity_factor"), ("res", "phase_res")] := by
   decide
 
@@ -61,17 +62,24 @@ theorem gen_flips :
     Generated.C14.zygoWriteFlip = Model.C14.zygoWriteFlip ∧ Generated.C14.zygoReadFlip = Model.C14.zygoReadFlip ∧
     Generated.C14.cvWriteFlip = Model.C14.cvWriteFlip ∧ Generated.C14.cvReadFlip = Model.C14.cvReadFlip := by decide
 
-/-- the Zygo quantisation arithmetic of the source is the model's, for every input and every rounding of the header wavelength -/
+/-- the Zygo quantisation arithmetic of the source is the model's, for every input and every rounding of the header
+wavelength (proved by `ring`, so re-associations of the source are accepted) -/
 theorem gen_zygo_quant (r32 : ℚ → ℚ) (x wvl n W S O R : ℚ) :
     Generated.C14.zygoWritePre r32 x wvl = Model.C14.zygoWritePre r32 x wvl ∧
     Generated.C14.zygoReadValue n W S O R = Model.C14.zygoReadValue n W S O R := by
   constructor <;> simp only [Generated.C14.zygoWritePre, Model.C14.zygoWritePre,
-    Generated.C14.zygoReadValue, Model.C14.zygoReadValue]
+    Generated.C14.zygoReadValue, Model.C14.zygoReadValue] <;> ring
 
-/-- the truncation repair of the source: zero-extend by `missing` bytes, invalidate the last `⌈missing/4⌉` samples, warn -/
-theorem gen_truncation (plen flen hdr m : Int) :
-    zygoMissing plen flen hdr 0 = 4 * plen - (flen - hdr) ∧ zygoBacktrack m = pyCeilDiv m 4 ∧ zygoTruncWarns = true := by
-  refine ⟨?_, ?_, by decide⟩ <;> simp only [zygoMissing, zygoBacktrack] <;> omega
+/-- the truncation repair of the source is the model's: zero-extend `contents[header_len + 2·ilen:]` by `missing` bytes,
+overwrite the slice `[-⌈missing/4⌉:]` with the invalid sentinel, warn unconditionally -/
+theorem gen_truncation :
+    zygoMissing = modelMissing ∧ zygoBacktrack = modelBacktrack ∧ zygoTailLower = modelTailLower ∧
+    zygoTailValue = Model.C14.zygoInvalid ∧ (∀ hdr ilen : Int, zygoExtOffset hdr ilen = hdr + ilen * 2) ∧ zygoTruncWarns = true := by
+  refine ⟨?_, ?_, ?_, by decide, ?_, by decide⟩
+  · funext plen flen hdr ilen; simp only [zygoMissing, modelMissing] <;> omega
+  · funext m; simp only [zygoBacktrack, modelBacktrack, pyCeilDiv] <;> omega
+  · funext b; simp only [zygoTailLower, modelTailLower] <;> omega
+  · intro hdr ilen; simp only [zygoExtOffset] <;> omega
 
 /-- the Code V header declares unit wavelength and the sentinel the writer stores; the scale choice is the model's -/
 theorem gen_codev (mn mx eps x s n wvl ssz : ℚ) :
@@ -82,8 +90,8 @@ theorem gen_codev (mn mx eps x s n wvl ssz : ℚ) :
   refine ⟨by norm_num [cvHeaderWvl], by decide, by decide, ?_, ?_, ?_⟩
   · simp only [Generated.C14.cvScale, Model.C14.cvScale]
     all_goals (try split_ifs) <;> simp_all
-  · simp only [Generated.C14.cvWritePre, Model.C14.cvWritePre]
-  · simp only [Generated.C14.cvReadValue, Model.C14.cvReadValue]
+  · simp only [Generated.C14.cvWritePre, Model.C14.cvWritePre] <;> ring
+  · simp only [Generated.C14.cvReadValue, Model.C14.cvReadValue] <;> ring
 
 /-! ## the property -/
 
@@ -101,11 +109,45 @@ theorem header_bytes_roundtrip (a : WArgs) (vals : List Float) (r : Row) (hr : r
     fileSlice (zygoFile zygoTable zygoWriterSets a vals) r.lo r.hi = r.payload a (lookupSrc zygoWriterSets r.name) :=
   C14L.header_bytes_roundtrip zygoTable zygoWriterSets a vals header_sizes_match header_fields_disjoint r hr hp
 
-/-- every numeric header field (any of the 150 of them, either byte order) unpacks to the value that was packed -/
+/-- a numeric header field whose packed bytes are `packNum v` (hypothesis `hraw`, discharged per field below and for all
+default-valued fields in `header_default_roundtrip`) unpacks to `v`, in the field's own byte order -/
 theorem header_value_roundtrip (a : WArgs) (vals : List Float) (r : Row) (hr : r ∈ zygoTable) (hp : r.isPad = false)
     (v : Nat) (hv : v < 256 ^ r.size) (hraw : (lookupSrc zygoWriterSets r.name).raw a r = packNum r.endian r.size v) :
     r.unpack (zygoFile zygoTable zygoWriterSets a vals) = v :=
   C14L.header_value_roundtrip zygoTable zygoWriterSets a vals header_sizes_match header_fields_disjoint r hr hp v hv hraw
+
+/-- numeric formats of the table carry no repeat count -/
+def numericCountOne (rows : List Row) : Bool :=
+  rows.all fun r => (r.code == .str || r.code == .pad || r.code == .chr) || r.count == 1
+
+/-- every numeric row of the generated table is a single value (no repeat count) -/
+theorem gen_table_counts : numericCountOne zygoTable = true := by decide +kernel
+
+/-- EVERY header field the writer leaves at its default (all rows of the generated table, either byte order) unpacks to that
+default from the written file: unsigned integers to their value, float32 fields to the float32 bit pattern of the default -/
+theorem header_default_roundtrip (a : WArgs) (vals : List Float) (r : Row) (hr : r ∈ zygoTable) (hp : r.isPad = false)
+    (hk : lookupSrc zygoWriterSets r.name = .keep) :
+    (∀ v, r.dflt = .int v → (r.code = .u16 ∨ r.code = .u32 ∨ r.code = .u8) → v < 256 ^ r.size →
+      r.unpack (zygoFile zygoTable zygoWriterSets a vals) = v) ∧
+    (∀ b, r.dflt = .flt b → r.code = .f32 →
+      r.unpack (zygoFile zygoTable zygoWriterSets a vals) = f32Bits (Float.ofBits (UInt64.ofNat b))) := by
+  have hc := gen_table_counts
+  simp only [numericCountOne, List.all_eq_true] at hc
+  have hcr := hc r hr
+  constructor
+  · intro v hd hcode hv
+    apply header_value_roundtrip a vals r hr hp v hv
+    rw [hk]
+    rcases hcode with h | h | h <;>
+      · have hcnt : r.count = 1 := by simpa [h] using hcr
+        simp only [Src.raw, hd, Row.rawDflt, h, Row.size, hcnt, Code.unit]
+  · intro b hd hcode
+    have hcnt : r.count = 1 := by simpa [hcode] using hcr
+    have hs : r.size = 4 := by simp [Row.size, hcnt, hcode, Code.unit]
+    apply header_value_roundtrip a vals r hr hp _ (by rw [hs]; exact f32Bits_lt _)
+    rw [hk]
+    simp only [Src.raw, hd, Row.rawDflt, hcode, hs]
+
 
 /-- the row of the generated table called `name` -/
 def rowOf (name : String) : Row :=
@@ -162,7 +204,7 @@ theorem zygo_scaling_fields_readback (a : WArgs) (vals : List Float) :
 one count is worth `Generated.C14.zygoReadValue 1 W 1 1 32768` nanometres on both sides, for every rounding `r32` of the header field -/
 theorem zygo_step_consistent (r32 : ℚ → ℚ) (x wvl : ℚ) (hW : r32 (zygoWvlWrite wvl) ≠ 0) :
     Generated.C14.zygoWritePre r32 x wvl = x / Generated.C14.zygoReadValue 1 (r32 (zygoWvlWrite wvl)) 1 1 phaseRes1 := by
-  simp only [Generated.C14.zygoWritePre, Generated.C14.zygoReadValue, zygoWvlWrite, phaseRes1] at *
+  simp only [Generated.C14.zygoWritePre, Generated.C14.zygoReadValue, Model.C14.zygoWritePre, Model.C14.zygoReadValue, zygoWvlWrite, phaseRes1] at *
   push_cast
   field_simp
 
@@ -176,24 +218,29 @@ theorem zygo_quant_error (r32 : ℚ → ℚ) (x wvl : ℚ) (hW : 0 < r32 (zygoWv
       < Generated.C14.zygoReadValue 1 (r32 (zygoWvlWrite wvl)) 1 1 phaseRes1 := by
   rw [zygo_step_consistent r32 x wvl hW.ne']
   have hq : 0 < Generated.C14.zygoReadValue 1 (r32 (zygoWvlWrite wvl)) 1 1 phaseRes1 := by
-    simp only [Generated.C14.zygoReadValue, phaseRes1]; positivity
+    simp only [Generated.C14.zygoReadValue, Model.C14.zygoReadValue, phaseRes1]; positivity
   have e : ∀ n : ℚ, Generated.C14.zygoReadValue n (r32 (zygoWvlWrite wvl)) 1 1 phaseRes1
       = Generated.C14.zygoReadValue 1 (r32 (zygoWvlWrite wvl)) 1 1 phaseRes1 * n := by
-    intro n; simp only [Generated.C14.zygoReadValue]; ring
+    intro n; simp only [Generated.C14.zygoReadValue, Model.C14.zygoReadValue]; ring
   rw [e (truncRat _ : ℚ)]
   exact quant_error_lemma x _ hq
 
-/-- Zygo: an invalid sample always decodes as invalid; a valid sample inside the format range never does, survives the
-big-endian byte encoding, and comes back within one step -/
+/-- Zygo, over the source's own invalid test (`zygoReaderInvalidTest`) and sentinels (writer's and reader's): an invalid
+sample always decodes as invalid; a valid sample inside the format range never does, survives the big-endian byte
+encoding, and comes back within one step -/
 theorem sentinel_sound (q : ℚ) (hq : 0 < q) :
-    zygoDecode q (de32 (be32 (zygoEncode q none))) = none ∧
+    zygoDecodeG zygoReaderInvalidTest Generated.C14.zygoInvalid q (de32 (be32 zygoWriterInvalid)) = none ∧
     ∀ v : ℚ, |v / q| < 2147483640 →
-      zygoDecode q (de32 (be32 (zygoEncode q (some v)))) = some ((truncRat (v / q) : ℚ) * q) ∧
+      zygoDecodeG zygoReaderInvalidTest Generated.C14.zygoInvalid q (de32 (be32 (zygoEncode q (some v))))
+        = some ((truncRat (v / q) : ℚ) * q) ∧
       |v - (truncRat (v / q) : ℚ) * q| < q := by
+  have e1 : zygoReaderInvalidTest = .ge := gen_reader_keys.2.2.1
+  have e2 : Generated.C14.zygoInvalid = 2147483640 := by decide
+  have e3 : zygoWriterInvalid = 2147483640 := by decide
+  rw [e1, e2, e3]
   constructor
-  · simp only [zygoEncode]
-    rw [be32_roundtrip _ (by decide) (by decide)]
-    simp [zygoDecode]
+  · rw [be32_roundtrip _ (by decide) (by decide)]
+    simp [zygoDecodeG, Cmp.holds]
   · intro v hv
     have hb := (truncRat_bounds (v / q)).2
     have h1 : |(truncRat (v / q) : ℚ)| < 2147483640 := lt_of_le_of_lt hb hv
@@ -202,9 +249,10 @@ theorem sentinel_sound (q : ℚ) (hq : 0 < q) :
     simp only [zygoEncode]
     rw [be32_roundtrip _ (by omega) (by omega)]
     refine ⟨?_, ?_⟩
-    · have hn : ¬ Model.C14.zygoInvalid ≤ truncRat (v / q) := by simp only [Model.C14.zygoInvalid]; omega
-      simp only [zygoDecode]
-      rw [if_neg hn]
+    · have hn : Cmp.holds .ge (truncRat (v / q)) 2147483640 = false := by
+        simp only [Cmp.holds, decide_eq_false_iff_not]; omega
+      simp only [zygoDecodeG, hn]
+      simp
     · rw [mul_comm]; exact quant_error_lemma v q hq
 
 /-- orientation: a written map reads back with every sample in its own place iff reader and writer apply the same flip -/
@@ -280,7 +328,7 @@ theorem codev_round_error (x s : ℚ) (hs : 0 < s) :
     |x - Generated.C14.cvReadValue (pyRoundRat (Generated.C14.cvWritePre x s)) cvHeaderWvl s|
       ≤ Generated.C14.cvReadValue 1 cvHeaderWvl s / 2 := by
   have hw : cvHeaderWvl = 1 := (gen_codev 0 0 0 0 0 0 0 0).1
-  simp only [Generated.C14.cvReadValue, Generated.C14.cvWritePre, hw]
+  simp only [Generated.C14.cvReadValue, Generated.C14.cvWritePre, Model.C14.cvReadValue, Model.C14.cvWritePre, hw]
   have h := pyRoundRat_error (x / 1000 * s)
   have e : x - (pyRoundRat (x / 1000 * s) : ℚ) * (1000 * 1 / s)
       = (1000 / s) * (x / 1000 * s - (pyRoundRat (x / 1000 * s) : ℚ)) := by field_simp
@@ -305,61 +353,158 @@ theorem codev_sentinel_sound (s wvl ssz : ℚ) :
     rw [if_neg hn]
     simp
 
-/-- Code V grid INT has no integrity information (the listed known finding, formalised): whenever a token list is accepted,
-the list with its last number replaced by ANY other number is accepted too — so a file cut inside its last number
-(`-16384` → `-1638`) cannot be told from a complete one by any reader of this grammar -/
-theorem codev_last_token_unprotected (t1 t2 : Nat) (wvl ssz : Float) (nda : Int) (ints : List Int) (z : Int) (h : ints ≠ []) :
-    (cvReadF t1 t2 wvl ssz nda ints).isSome → (cvReadF t1 t2 wvl ssz nda (ints.dropLast ++ [z])).isSome := by
-  have hl : (ints.dropLast ++ [z]).length = ints.length := by
-    have := List.length_pos_of_ne_nil h
-    simp only [List.length_append, List.length_dropLast, List.length_singleton]; omega
-  simp only [cvReadF, hl]
-  split <;> simp
+/-- the writer produces one integer per sample -/
+theorem length_cvCountsF (vals : List Float) : (cvCountsF vals).2.length = vals.length := by
+  simp [cvCountsF]
 
-/-- … while any cut that loses a whole number is rejected: the reader accepts exactly `rows × cols` numbers -/
-theorem codev_wrong_count_rejected (t1 t2 : Nat) (wvl ssz : Float) (nda : Int) (ints : List Int)
-    (h : ints.length ≠ (cvReadShape t1 t2).1 * (cvReadShape t1 t2).2) : cvReadF t1 t2 wvl ssz nda ints = none := by
-  simp only [cvReadF]
-  rw [if_pos h]
+/-- the GRD token order of both sides is the model's: writer emits `(cols, rows)`, reader reshapes to `(second, first)` -/
+theorem gen_codev_dims (h w : Nat) :
+    (grdTok h w 1, grdTok h w 2) = cvHeaderDims h w ∧
+    ∀ t1 t2 : Nat, ((if cvGrdReadToks.1 = 1 then t1 else t2), (if cvGrdReadToks.2 = 1 then t1 else t2)) = cvReadShape t1 t2 := by
+  constructor
+  · simp [grdTok, cvGrdWriteAxes, cvHeaderDims]
+  · intro t1 t2; simp [cvGrdReadToks, cvReadShape]
 
-/-- truncation: for EVERY cut point inside a written Zygo file, the reader either raises (cut inside the header) or
-returns all `n` samples with every sample whose four bytes are not all present marked invalid and every complete
-sample unchanged — never a full array of plausible numbers -/
+/-- Code V, end to end over the model (GRD tokens + flips + sample order together): for every `h × w` map the reader,
+given the header tokens and the integers the writer produced, returns shape `(h, w)` and every integer (the NDA of a NaN
+included) in its own place, without a warning -/
+theorem codev_model_roundtrip (h w : Nat) (nda : Int) (vals : List Float) (hl : vals.length = h * w) :
+    cvReadInts (cvHeaderDims h w).1 (cvHeaderDims h w).2 nda true (cvWriteF h w vals).2
+      = some (h, w, (cvCountsF vals).2, false) := by
+  have hc := length_cvCountsF vals
+  simp only [cvWriteF, cvReadInts, cvHeaderDims, cvReadShape, Bool.true_or, if_true, length_permute, hc, hl]
+  simp only [ne_eq, not_true_eq_false, if_false, Bool.not_true, Bool.false_and]
+  rw [permute_permute (cvCountsF vals).2 (flipIdx Model.C14.cvWriteFlip h w) (flipIdx Model.C14.cvReadFlip h w)
+    (by intro i hi; rw [hc, hl] at hi ⊢; exact flipIdx_lt _ _ _ _ hi)
+    (by intro i hi; rw [hc, hl] at hi; exact (orientation_iff _ _).2 rfl h w i hi)]
+
+/-- Code V truncation, on the TEXT of the data block (tokens separated by newlines as `np.savetxt` writes them, any
+integer parser): for EVERY cut point the repaired reader either rejects (a whole number is missing) or warns and returns
+the full-size map with every number but the last unchanged and the last one — the only one that can have lost digits —
+marked invalid.  Never a full array of plausible numbers (replaces the former known finding `codev-last-token-cut`) -/
+theorem codev_truncation_safe (t1 t2 : Nat) (nda : Int) (parse : List Char → Int) (toks : List (List Char))
+    (hc : ∀ t ∈ toks, CleanTok t) (hn : toks.length = (cvReadShape t1 t2).1 * (cvReadShape t1 t2).2)
+    (k : Nat) (hk : k < (cvDataText toks).length) :
+    cvReadText t1 t2 nda parse ((cvDataText toks).take k) = none ∨
+    cvReadText t1 t2 nda parse ((cvDataText toks).take k)
+      = some ((cvReadShape t1 t2).1, (cvReadShape t1 t2).2,
+              permute 0 (toks.dropLast.map parse ++ [nda]) (flipIdx Model.C14.cvReadFlip (cvReadShape t1 t2).1 (cvReadShape t1 t2).2), true) := by
+  obtain ⟨c1, c2⟩ := cut_tokens toks hc k hk
+  generalize hr : splitWS ((cvDataText toks).take k) [] = r at c1 c2
+  by_cases hlen : r.length = toks.length
+  · obtain ⟨e1, e2, e3⟩ := c2 hlen
+    right
+    have hne : (r.map parse).isEmpty = false := by
+      cases r with
+      | nil => exact absurd rfl e3
+      | cons a b => rfl
+    simp only [cvReadText, cvReadInts, hr, e1, hne, Bool.false_or, Bool.false_eq_true, if_false]
+    have hl2 : ((r.map parse).dropLast ++ [nda]).length = (cvReadShape t1 t2).1 * (cvReadShape t1 t2).2 := by
+      have : 0 < r.length := List.length_pos_of_ne_nil e3
+      simp only [List.length_append, List.length_dropLast, List.length_map, List.length_singleton]; omega
+    rw [if_neg (by rw [hl2]; simp)]
+    have : (r.map parse).dropLast = toks.dropLast.map parse := by
+      rw [← List.map_dropLast, e2]
+    simp [this]
+  · left
+    have hlt : r.length < toks.length := by omega
+    simp only [cvReadText, cvReadInts, hr]
+    rw [if_pos]
+    split_ifs with hb
+    · simp only [List.length_map]; omega
+    · have hne : r ≠ [] := by
+        intro h0; subst h0; simp at hb
+      have : 0 < r.length := List.length_pos_of_ne_nil hne
+      simp only [List.length_append, List.length_dropLast, List.length_map, List.length_singleton]; omega
+
+/-- … and the complete text reads back every number, without a warning -/
+theorem codev_full_text_reads_back (t1 t2 : Nat) (nda : Int) (parse : List Char → Int) (toks : List (List Char))
+    (hc : ∀ t ∈ toks, CleanTok t) (hn : toks.length = (cvReadShape t1 t2).1 * (cvReadShape t1 t2).2) (hne : toks ≠ []) :
+    cvReadText t1 t2 nda parse (cvDataText toks)
+      = some ((cvReadShape t1 t2).1, (cvReadShape t1 t2).2,
+              permute 0 (toks.map parse) (flipIdx Model.C14.cvReadFlip (cvReadShape t1 t2).1 (cvReadShape t1 t2).2), false) := by
+  simp only [cvReadText, cvReadInts, splitWS_data toks hc, endsWS_data toks hne, Bool.true_or, if_true, List.length_map, hn]
+  simp
+
+/-- every header line the writer can emit (each `typ` in SUR/WFR/FIL, with and without NNB) consists of keywords the
+reader understands, with the number of values it expects, and carries the GRD/WVL/SSZ/NDA entries the reader requires -/
+theorem codev_header_accepted :
+    cvWriterHeaders.all (fun hd => acceptsHeader cvReaderTokens 32 hd && hd.contains "GRD" && hd.contains "WVL" && hd.contains "NDA" && hd.contains "SSZ") = true := by
+  decide +kernel
+
+/-- the number of text lines the writer lays the data out in divides the number of samples for every map size, so the
+layout reshape never raises (in particular above 585 samples, where the divisor search actually runs) -/
+theorem codev_layout_divides (size : Nat) (h : 1 ≤ size) : cvWidth size ∣ size ∧ 1 ≤ cvWidth size := by
+  simp only [cvWidth, cvLines]
+  exact ⟨(widthSearch_dvd size 585 585 (by decide) (by decide)).1, (widthSearch_dvd size 585 585 (by decide) (by decide)).2.1⟩
+
+
+/-- the reader's counts with the truncation arithmetic and sentinel GENERATED from the source -/
+def readCountsGen (f : List Nat) (n : Nat) : Option (List Int) :=
+  readCountsG zygoMissing zygoBacktrack zygoTailLower zygoTailValue f n
+
+/-- bridge: the function the driver executes (`Model.readCounts`) is the reader over the generated arithmetic -/
+theorem readCountsGen_eq : readCountsGen = readCounts := by
+  funext f n
+  simp only [readCountsGen, readCounts, gen_truncation.1, gen_truncation.2.1, gen_truncation.2.2.1, gen_truncation.2.2.2.1]
+
+/-- truncation, over the source's own repair arithmetic (`zygoMissing`, `zygoBacktrack`, `zygoTailLower`, `zygoTailValue`):
+for EVERY cut point inside a written Zygo file, the reader either raises (cut inside the header) or warns and returns all
+`n` samples with every sample whose four bytes are not all present marked invalid and every complete sample unchanged —
+never a full array of plausible numbers -/
 theorem truncation_safe (hdr : List Nat) (s : List Int) (hh : hdr.length = headerLen)
     (hs : ∀ j, j < s.length → -2147483648 ≤ s.getD j 0 ∧ s.getD j 0 < 2147483648)
     (k : Nat) (hk : k < headerLen + 4 * s.length) :
-    (k < headerLen ∧ readCounts ((hdr ++ bodyBytes s).take k) s.length = none) ∨
-    (headerLen ≤ k ∧ readWarns ((hdr ++ bodyBytes s).take k) s.length = true ∧
-      ∃ r, readCounts ((hdr ++ bodyBytes s).take k) s.length = some r ∧ r.length = s.length ∧
-      ∀ j, j < s.length → r.getD j 0 = if headerLen + 4 * (j + 1) ≤ k then s.getD j 0 else Model.C14.zygoInvalid) := by
+    (k < headerLen ∧ readCountsGen ((hdr ++ bodyBytes s).take k) s.length = none) ∨
+    (headerLen ≤ k ∧ readWarns ((hdr ++ bodyBytes s).take k) s.length = true ∧ zygoTruncWarns = true ∧
+      ∃ r, readCountsGen ((hdr ++ bodyBytes s).take k) s.length = some r ∧ r.length = s.length ∧
+      ∀ j, j < s.length → r.getD j 0 = if headerLen + 4 * (j + 1) ≤ k then s.getD j 0 else Generated.C14.zygoInvalid) := by
+  rw [readCountsGen_eq, show Generated.C14.zygoInvalid = Model.C14.zygoInvalid from gen_constants.1]
   rcases truncation_safe_lemma hdr s hh hs k hk with h | ⟨h1, h2⟩
   · exact Or.inl h
-  · refine Or.inr ⟨h1, ?_, h2⟩
+  · refine Or.inr ⟨h1, ?_, gen_truncation.2.2.2.2.2, h2⟩
     have hlen : ((hdr ++ bodyBytes s).take k).length = k := by
       rw [List.length_take, List.length_append, length_bodyBytes, hh]; omega
     simp only [readWarns, hlen, Bool.and_eq_true, decide_eq_true_eq]
     exact ⟨h1, hk⟩
 
+/-- a cut in the data block leaves the header intact: the cut file still declares the shape and scaling of the whole map -/
+theorem cut_keeps_header (f : List Nat) (k lo : Nat) (hk : headerLen ≤ k) (hlo : lo + 4 ≤ headerLen) :
+    hdrU16 (f.take k) lo = hdrU16 f lo ∧ hdrU32 (f.take k) lo = hdrU32 f lo := by
+  simp only [hdrU16, hdrU32, getD_take']
+  rw [if_pos (by omega), if_pos (by omega), if_pos (by omega), if_pos (by omega)]
+  exact ⟨rfl, rfl⟩
+
 /-- the complete file reads back every sample (no warning) -/
 theorem full_file_reads_back (hdr : List Nat) (s : List Int) (hh : hdr.length = headerLen)
     (hs : ∀ j, j < s.length → -2147483648 ≤ s.getD j 0 ∧ s.getD j 0 < 2147483648) :
-    ∃ r, readCounts (hdr ++ bodyBytes s) s.length = some r ∧ r.length = s.length ∧
+    ∃ r, readCountsGen (hdr ++ bodyBytes s) s.length = some r ∧ r.length = s.length ∧
       (∀ j, j < s.length → r.getD j 0 = s.getD j 0) ∧ readWarns (hdr ++ bodyBytes s) s.length = false := by
+  rw [readCountsGen_eq]
   have hlen : (hdr ++ bodyBytes s).length = headerLen + 4 * s.length := by
     rw [List.length_append, length_bodyBytes, hh]
-  simp only [readCounts, readWarns, hlen]
-  rw [if_neg (by omega), if_pos (by push_cast; omega)]
+  simp only [readCounts, readCountsG, readWarns, hlen, sampleAtA_toArray]
+  rw [if_neg (by omega), if_pos (by simp only [modelMissing]; push_cast; omega)]
   refine ⟨_, rfl, by simp, ?_, by simp⟩
   intro j hj
   rw [getD_map_range _ _ _ hj, ← hh, sampleAt_body, C14L.be32_roundtrip _ (hs j hj).1 (hs j hj).2]
 
-/-- Zygo, end to end over the model (header + bytes + flips together): for every shape and every map whose counts fit
-`int32`, reading the written file returns every integer sample in its own place, with no warning -/
+/-- a NaN sample is written as the invalid sentinel -/
+theorem nan_written_as_sentinel (wvl x : Float) (h : x.isNaN = true) : zygoCountF wvl x = Model.C14.zygoInvalid := by
+  simp [zygoCountF, h]
+
+/-- Zygo, end to end over the model (header + bytes + flips together, reader arithmetic generated from the source): for
+every shape and every map whose counts fit `int32`, reading the written file returns every integer sample (the sentinel
+of a NaN included) in its own place, with no warning; the shape decoded from the file is `zygo_shape_roundtrip` -/
 theorem zygo_model_roundtrip (a : WArgs) (vals : List Float) (hl : vals.length = a.h * a.w)
     (hr : ∀ v ∈ vals, -2147483648 ≤ zygoCountF a.wvl v ∧ zygoCountF a.wvl v < 2147483648) :
-    ∃ r, readCounts (zygoFile Generated.C14.zygoTable Generated.C14.zygoWriterSets a vals) (a.h * a.w) = some r ∧
+    ∃ r, readCountsGen (zygoFile Generated.C14.zygoTable Generated.C14.zygoWriterSets a vals) (a.h * a.w) = some r ∧
       permute 0 r (flipIdx Generated.C14.zygoReadFlip a.h a.w) = vals.map (zygoCountF a.wvl) ∧
       readWarns (zygoFile Generated.C14.zygoTable Generated.C14.zygoWriterSets a vals) (a.h * a.w) = false := by
+  rw [readCountsGen_eq]
+  show ∃ r, readCounts (zygoFile Generated.C14.zygoTable Generated.C14.zygoWriterSets a vals) (a.h * a.w) = some r ∧
+      permute 0 r (flipIdx Generated.C14.zygoReadFlip a.h a.w) = vals.map (zygoCountF a.wvl) ∧
+      readWarns (zygoFile Generated.C14.zygoTable Generated.C14.zygoWriterSets a vals) (a.h * a.w) = false
   have hc : (vals.map (zygoCountF a.wvl)).length = a.h * a.w := by simp [hl]
   generalize hcs : vals.map (zygoCountF a.wvl) = counts at hc
   have hrange : ∀ c ∈ counts, -2147483648 ≤ c ∧ c < 2147483648 := by
@@ -374,7 +519,7 @@ theorem zygo_model_roundtrip (a : WArgs) (vals : List Float) (hl : vals.length =
       rcases getD_mem_or_zero counts (flipIdx Model.C14.zygoWriteFlip a.h a.w j) with h | h
       · rw [permute_getD _ _ _ (by rw [length_permute] at hj; exact hj)]; exact hrange _ h
       · rw [permute_getD _ _ _ (by rw [length_permute] at hj; exact hj), h]; decide)
-  rw [hsl] at hfull
+  rw [hsl, readCountsGen_eq] at hfull
   obtain ⟨r, h1, h2, h3, h4⟩ := hfull
   refine ⟨r, by simpa only [zygoFile, hcs] using h1, ?_, by simpa only [zygoFile, hcs] using h4⟩
   have hrs : r = permute 0 counts (flipIdx Model.C14.zygoWriteFlip a.h a.w) :=
@@ -412,8 +557,8 @@ theorem ifg_units_rounded (r32 : ℚ → ℚ) (u : ℚ) (hr : ∀ y, |r32 y - y|
 example : de32 (be32 (-123456789)) = -123456789 := by decide
 example : flipIdx .rows 2 3 (flipIdx .both 2 3 0) = 2 := by decide    -- pinned reader: sample (0,0) comes back at (0,2)
 example : (grdTok 4 5 cvGrdReadToks.1, grdTok 4 5 cvGrdReadToks.2) = (4, 5) := by decide
-example : |(-2 : ℚ) * Generated.C14.cvScale (-2) (-1) (1 / 4503599627370496)| ≤ 32767 := by
-  norm_num [Generated.C14.cvScale, abs_le]
+example : |(-2 : ℚ) * Generated.C14.cvScale (-2) (-1) (1 / 4503599627370496)| ≤ 32767 :=
+  (codev_scale_in_range (-2) (-1) (1 / 4503599627370496) (-2) (by norm_num) (by norm_num) (by norm_num) (by norm_num)).1
 example : (0 : ℚ) < (fun y => y) (zygoWvlWrite (6328 / 10000)) := by norm_num [zygoWvlWrite]
 example : readCounts ((List.replicate 834 0 ++ bodyBytes [5, -7]).take 839) 2 = some [5, 2147483640] := by decide +kernel
 example : readCounts ((List.replicate 834 0 ++ bodyBytes [5, -7]).take 833) 2 = none := by decide +kernel
